@@ -110,10 +110,36 @@ def check(run):
     rr = vlib.run_jobs(j)
     viol, seen = [], collections.Counter()
     ncalls = 0
+    # the deterministic replay of bison's skeleton on the regenerated tables must issue the callbacks the real parser issues
+    import lrsim
+    sim = lrsim.Sim()
+    TYPEWORDS = re.compile(r'\b(typedef|id_t|S|sc|int8_t|uint8_t|int16_t|uint16_t|int32_t)\b')
+    replayed, replay_mism, replay_recov = 0, [], 0
     for cid, (kind, text) in srcs.items():
         c = rr[cid]
         for cc in c['cmds']:
             ncalls += validate_trace(cc[2], viol, seen)
+        if kind.startswith('part ') and c['status'] == 'ok' and not TYPEWORDS.search(text):
+            part = int(kind.split()[1])
+            old = b'CASE %s fork old' % cid.encode() in j.bytes()
+            toks = sim.lex(text, newxta=not old)
+            if toks is None or any(t[0] == 'T_ERROR' for t in toks):
+                continue
+            model_calls, outcome = sim.run(lrsim.START[part][1 if old else 0], toks)
+            real_calls = [l.split()[1] for cc in c['cmds'] if cc[0] == 'TRACE' for l in cc[2] if l.startswith('T ')]
+            threw = any(l.split()[-1] == '1' for cc in c['cmds'] if cc[0] == 'TRACE' for l in cc[2] if l.startswith('T ')) or any(l.startswith('EXC') for cc in c['cmds'] for l in cc[2])
+            replayed += 1
+            if outcome != 'accept' or len(model_calls) != len(set(range(len(model_calls)))): replay_recov += 1
+            if threw:
+                if real_calls != model_calls[:len(real_calls)]:
+                    replay_mism.append(dict(part=part, old=old, text=text, note='the parse ended by an exception: the real callbacks must be a prefix of the replay', real=real_calls[-6:], model=model_calls[max(0, len(real_calls) - 6):len(real_calls)]))
+            elif real_calls != model_calls:
+                k = next((i for i, (a, b) in enumerate(zip(real_calls + ['<end>'], model_calls + ['<end>'])) if a != b), 0)
+                replay_mism.append(dict(part=part, old=old, text=text, first_difference=k, real=real_calls[max(0, k - 3):k + 3], model=model_calls[max(0, k - 3):k + 3]))
+    if replay_mism:
+        run.tie_broken('replay of the LR tables (gen_grammar + yacc.c skeleton with error recovery) vs the callbacks of the real parser', replay_mism[:4] + [dict(total=len(replay_mism), replayed=replayed)])
+    for cid, (kind, text) in srcs.items():
+        c = rr[cid]
         if c['status'] != 'ok':
             run.fail('%s: parsing entry point %s crashed or hung' % (c['status'], kind), dict(entry=kind, input=text, status=c['status'], builder='DocumentBuilder (traced)'),
                      shape='crash:%s:%s' % (kind.split()[0], c['status'].split()[0]))
@@ -184,7 +210,7 @@ def check(run):
         if nonstd:
             run.fail('an exception that is not a std::exception escaped %s' % entry, dict(entry=entry, input=text, line=nonstd[0]), shape='nonstd-exception')
     run.cov.update(evaluations=nt + ns, distinct_nontrivial=len(set(t for _, t in srcs.values())) + len(set(t for _, t in ssrc.values())), traces_validated_against_impl=nt,
-                   callbacks_observed=ncalls, distinct_callbacks_observed=len(seen), callbacks_in_table=len(gen_lr.EFFECTS), automaton_states=info['states'], grammar_rules=info['rules'],
+                   callbacks_observed=ncalls, lr_replays=replayed, distinct_callbacks_observed=len(seen), callbacks_in_table=len(gen_lr.EFFECTS), automaton_states=info['states'], grammar_rules=info['rules'],
                    counting_symbols=info['stacks'][gen_lr.F]['counting_symbols'], entry_points=dict(entries), outcomes=dict(outcomes),
                    rule='(A) Coq: check_all on the LR(0) item automaton, rule actions and effect table regenerated from parser.y (bison --xml), for the expression, type and frame stacks. '
                         '(B) every builder callback of generated and token-mutated inputs (whole XML, whole XTA in both syntaxes, every xta_part_t with DocumentBuilder, queries with PropertyBuilder) is traced with the three stack heights before and after and compared with the effect table. '
